@@ -386,3 +386,50 @@ pub fn digits_overflow(tok: &str) -> bool {
     let max = usize::MAX.to_string();
     t.len() > max.len() || (t.len() == max.len() && t > max.as_str())
 }
+
+/// Run `f` on copies of `s` placed at every offset 0..8 from an 8-byte-aligned address, each copy followed and
+/// preceded by unrelated bytes inside one larger buffer (what a `&str` cut out of a longer string looks like).
+/// Used by the `law_align` oracles: the outcome of an operation must not depend on where its input lives.
+pub fn with_alignments(s: &str, mut f: impl FnMut(usize, &str)) {
+    let n = s.len();
+    let mut buf: Vec<u8> = vec![b'a'; n + 32];
+    let base = buf.as_ptr() as usize;
+    let first = (8 - base % 8) % 8;
+    for k in 0..8usize {
+        let start = first + 8 + k;
+        for b in buf.iter_mut() {
+            *b = b'a';
+        }
+        buf[start..start + n].copy_from_slice(s.as_bytes());
+        // SAFETY-free: the window holds exactly the bytes of `s`, which is valid UTF-8
+        if let Ok(view) = std::str::from_utf8(&buf[start..start + n]) {
+            f(k, view);
+        }
+    }
+}
+
+/// A text that shares its beginning with `text` and then differs in a character with the same UTF-8 lead byte
+/// (é/è, 前/字, two emoji): what a byte-wise "common prefix" computation cuts in the middle of. `None` if the text has
+/// no multi-byte character.
+pub fn same_lead_sibling(text: &str) -> Option<String> {
+    let mut out = String::with_capacity(text.len());
+    let mut done = false;
+    for ch in text.chars().rev() {
+        if !done && ch.len_utf8() > 1 {
+            let mut b = [0u8; 4];
+            let enc = ch.encode_utf8(&mut b).as_bytes().to_vec();
+            let mut alt = enc.clone();
+            let last = alt.len() - 1;
+            alt[last] = if alt[last] == 0x80 { 0x81 } else { 0x80 + ((alt[last] - 0x80 + 1) % 0x40) };
+            if let Ok(sib) = std::str::from_utf8(&alt) {
+                if let Some(c2) = sib.chars().next() {
+                    out.insert(0, c2);
+                    done = true;
+                    continue;
+                }
+            }
+        }
+        out.insert(0, ch);
+    }
+    if done { Some(out) } else { None }
+}
